@@ -164,6 +164,22 @@ def initial_state_features(spec, force=False):
     spec["initial_state_csv"] = ini
 
 
+def alias_initial_state_specs():
+    """models whose initial_state.csv names a negated / a plain alias of a state with default start"""
+    specs = []
+    sc = str(Fraction(-1, 4 * 3600))
+    for nm, sign, val in (("neg_x1", -1, "5/2"), ("same_x1", 1, "-7/4")):
+        specs.append({"name": "MAlias" + nm.split("_")[0], "dt": 3600, "nsteps": 2,
+                      "states": [{"name": "x0", "start": "1", "fixed": True, "nominal": "10"}, {"name": "x1"}],
+                      "algebraics": [{"name": nm}], "inputs": [{"name": "u0"}], "outputs": ["x0", "x1", nm], "parameters": [],
+                      "equations": [[["v", "der(x0)"], ["+", ["*", ["c", sc], ["v", "x0"]], ["*", ["c", sc], ["v", "u0"]]]],
+                                    [["v", "der(x1)"], ["*", ["c", sc], ["v", "x1"]]],
+                                    [["v", nm], ["neg", ["v", "x1"]] if sign < 0 else ["v", "x1"]]],
+                      "delays": [], "aliases": [[nm, "x1", sign]], "series": {"u0": ["1", "2", "0"]},
+                      "initial_state_csv": {nm: val}, "free_start": {"x1": str(sign * Fraction(val))}})
+    return specs
+
+
 def run_model(spec):
     """executed in a worker process: compile, simulate step by step, return observations"""
     import logging
@@ -353,7 +369,7 @@ def run(ctx):
     if replay:
         specs = [json.load(open(replay))["replay"]["spec"]]
     else:
-        specs = [c["spec"] for c in core.corpus_cases(ID)] + [gen_model(ctx.rng, i) for i in range(ctx.n(16, 400))]
+        specs = [c["spec"] for c in core.corpus_cases(ID)] + alias_initial_state_specs() + [gen_model(ctx.rng, i) for i in range(ctx.n(16, 400))]
     with ProcessPoolExecutor(max_workers=8) as ex:
         results = list(ex.map(safe_run, specs))
         unsolv = [ex.submit(run_unsolvable, rf).result() for rf in (None, "fast_newton", "newton")] if not replay else []
